@@ -78,7 +78,7 @@ def run_case(case, rec, cid):
             out = "ve"
         else:
             out = "other"
-        rec.ev("Fuzz", cid, parser=which, outcome=out, cls="" if st == "ok" else type(v).__name__, isq=isq, q=q,
+        rec.ev("Fuzz", cid, parser=which, outcome=out, cls="" if st == "ok" else type(v).__name__, isq=isq, q=q, refuse=bool(case.get("refuse")),
                n=len(text), text=[min(ord(ch), 1 << 20) for ch in text[:60]])
         return st == "ok"
     raise ValueError(k)
@@ -200,6 +200,16 @@ def expand(job):
             elif choice == "zone" and g["zform"] in ("hhmm", "hh:mm"):
                 g["zm"] = rnd.choice([60, 61, 99, 59]) * (1 if g["zh"] >= 0 else -1)
             yield {"kind": "text", "mode": sp, "g": g, "cfg": dict(c07.rand_cfg(rnd, g), basic=False), "sys": c07.rand_sys(rnd)}
+    elif k == "recbad":
+        # an impossible (or unreadable) date-time in ANY slot of a recurrence, with any repetition count, must be refused
+        bad = ["2001-02-29T00Z", "2021-W53-1T00Z", "2000-01-01T24:01Z", "2000-13-01T00Z", "2000-01-01T00+05:60", "2001-366T00Z", "2000-04-31T00Z",
+               "2000-01-01T25Z", "2000-01-01T00:60Z", "not-a-date", "2000-W00-1T00Z", "2000-W01-8T00Z"]
+        good = ["2000-01-01T00Z", "2000-02-28T12:00:00+01:00", "1999-365T00Z"]
+        for b_ in bad:
+            for reps in ("", "1", "2", "5"):
+                for text in ("R%s/%s/%s" % (reps, good[0], b_), "R%s/%s/%s" % (reps, b_, good[1]), "R%s/%s/P1D" % (reps, b_), "R%s/P1D/%s" % (reps, b_),
+                             "R%s/%s/PT0S" % (reps, b_)):
+                    yield {"kind": "fuzz", "mode": "gregorian", "parser": "rec", "cfg": 0, "text": text, "refuse": True}
     elif k == "fixed":
         # the recorded finding (known_findings.json: recurrence-text-with-astronomical-interval), exercised in every run
         yield {"kind": "fuzz", "mode": "gregorian", "parser": "rec", "cfg": 0, "text": "R3/P000001000000000000000000000000000000000001M/2000-03-31T00Z"}
@@ -228,6 +238,7 @@ def jobs(tier, seed):
     for sp, y in yt if tier == "quick" else yt + [(m_, y_) for m_ in gen.MODES4 for y_ in (-4, -1, 1, 1999, 2100, 2400, 9999)]:
         out.append({"kind": "table", "mode": sp, "y": y})
     out.append({"kind": "fixed"})
+    out.append({"kind": "recbad"})
     n = 1200 if tier == "quick" else 20000
     for j in range(4 if tier == "quick" else 12):
         out.append({"kind": "badtext", "forms": forms, "n": n, "seed": seed * 100 + j})
